@@ -463,6 +463,17 @@ def run(rep, tier):
             rep.bad("C16.R2", h, h.loc, "keys:" + hname, "%s tests %s but reads %s (expected both to be '%s'): the option is ignored or the wrong one is read" % (hname, sorted(ck), sorted(ik), opt))
             continue
         leaves = [a for _, a, _ in cond_leaves(h) if "count(" in a and opt in a]
+        local_inverted = None
+        if not leaves:
+            # 'bool const given = vm.count(k) != 0; if (given)': the branch is on a local that is defined once from the count
+            for _, _, e in h.all_events():
+                if e.get("k") == "decl" and e.get("init") is not None and "count(" in T(e["init"]) and ('"%s"' % opt) in T(e["init"]):
+                    nwr = [1 for _, _, w in h.all_events() if w.get("k") == "write" and P(w["lhs"]) == e["var"]]
+                    if not nwr and any(a == e["var"] for _, a, _ in cond_leaves(h)):
+                        leaves = [e["var"]]
+                        it = T(e["init"]).strip()
+                        local_inverted = bool(re.search(r"== 0\)?$|^\(?0 == |^!", it))
+                        break
         if not leaves:
             raise AnalysisBroken("%s: branch on vm.count(\"%s\") not found" % (hname, opt))
         atom = leaves[0]
@@ -473,6 +484,8 @@ def run(rep, tier):
         for present in (True, False):
             # atom may be 'vm.count(k)' or '0 == vm.count(k)' (then truth is inverted)
             inverted = bool(re.match(r"^0 == ", atom)) or atom.endswith(" == 0")
+            if local_inverted is not None:
+                inverted = local_inverted
             paths = eval_walk(h, h.entry, atom_env={atom: (not present) if inverted else present})
             for evs, end in paths:
                 if end != "return":
@@ -546,18 +559,28 @@ def run(rep, tier):
                 continue
             ret = evs[-1][2]
             v0 = strip(ret.get("e"))
-            if not (isinstance(v0, dict) and v0.get("k") == "var"):
-                continue
             seq = [e for _, _, e in evs]
+            if isinstance(v0, dict) and v0.get("k") == "var":
+                cands = [v0["name"]]
+            else:
+                # 'return (std::max)(threads, min_os_threads)': the locals the returned expression is computed from
+                declared = {e.get("var") for e in seq if e.get("k") == "decl"}
+                cands = sorted({x["name"] for x in subexprs(ret.get("e"), lambda y: isinstance(y, dict) and y.get("k") == "var" and not y.get("param")) if x.get("name") in declared})
+            if not cands:
+                continue
             rd = [k_ for k_, e in enumerate(seq) if e.get("k") in ("decl", "write", "call") and ('vm["%s"]' % opt) in T(e.get("init") or e.get("rhs") or e)]
             if not rd:
                 continue
             npaths += 1
-            # definitions that do not merely transform the old value (threads = max(threads, min) keeps what it had)
-            selfref = re.compile(r"(?<![\w.>])%s(?![\w(])" % re.escape(v0["name"]))
-            defs = [k_ for k_, e in enumerate(seq) if (e.get("k") == "decl" and e.get("var") == v0["name"]) or
-                    (e.get("k") == "write" and P(e["lhs"]) == v0["name"] and e.get("op", "=") == "=" and not selfref.search(T(e.get("rhs"))))]
-            if not defs or max(defs) < min(rd):
+            fresh = False
+            for vname in cands:
+                # definitions that do not merely transform the old value (threads = max(threads, min) keeps what it had)
+                selfref = re.compile(r"(?<![\w.>])%s(?![\w(])" % re.escape(vname))
+                defs = [k_ for k_, e in enumerate(seq) if (e.get("k") == "decl" and e.get("var") == vname) or
+                        (e.get("k") == "write" and P(e["lhs"]) == vname and e.get("op", "=") == "=" and not selfref.search(T(e.get("rhs"))))]
+                if defs and max(defs) >= min(rd):
+                    fresh = True
+            if not fresh:
                 stale.append(loc_of(ret))
         if npaths == 0:
             raise AnalysisBroken("%s: no returning path reads vm[\"%s\"]" % (hname, opt))
